@@ -95,7 +95,8 @@ func sameIds(a, b acc.Out) bool {
 }
 
 type meta struct {
-	kind  string // lists | bystander
+	kind  string // lists | bystander | history
+	steps []int  // history: positions of the test requests
 	x     int    // index of X in the ORIGINAL op list
 	class string
 	// indices (original numbering) of the observations around X
@@ -189,6 +190,34 @@ func oracle(c acc.Case, m meta, idx int, host string, res *lib.Result) {
 	}
 }
 
+// oracleHist: the shared history oracle, read for this property (admin and status endpoints only).
+func oracleHist(c acc.Case, idx int, res *lib.Result) {
+	for _, f := range acc.JudgeHistory(c) {
+		clause := ""
+		switch {
+		case f.Clause == "success-for-invalid" && f.Route == "status":
+			clause = "stats-only"
+		case f.Clause == "success-for-invalid" && f.Route != "session":
+			clause = "admin-only"
+		case f.Clause == "refusal-changed-lists" && f.Route != "session":
+			clause = "refused-call-changed-lists"
+		case f.Clause == "answered" && f.Route != "session":
+			clause = "answered"
+		}
+		if clause == "" {
+			continue
+		}
+		hist := c
+		hist.Ops, hist.Outs = c.Ops[:f.Op+1], c.Outs[:f.Op+1]
+		p := f.Part
+		if i := strings.Index(p, "/"); i > 0 {
+			p = p[:i]
+		}
+		res.Violate(lib.Violation{Clause: clause, Case: idx, Key: clause + ":" + f.Route + ":history/" + p, Replay: hist,
+			Detail: fmt.Sprintf("history %s (%d operations so far): %s", c.Name, f.Op+1, f.Detail)})
+	}
+}
+
 func main() {
 	a := lib.ParseArgs()
 	acc.Supervise("C09", a, 280*time.Second, func() { work(a) })
@@ -279,7 +308,16 @@ func work(a lib.Args) {
 		var c acc.Case
 		lib.ReadReplayCase(a.Replay, &c)
 		m := meta{kind: "lists", x: 4, before: []int{2, 3}, after: []int{5, 6}, class: "replay"}
-		if c.Mode == "real" {
+		st := []int{}
+		for i, o := range c.Ops {
+			if o.Req != nil && (o.Req.Label == "step" || o.Req.Label == "step-repeat") {
+				st = append(st, i)
+			}
+		}
+		if len(st) > 0 {
+			m = meta{kind: "history", steps: st, class: "replay"}
+		}
+		if c.Mode == "real" && m.kind != "history" {
 			// drop the recorded clock ops; they are re-recorded
 			ops := []acc.Op{}
 			for _, o := range c.Ops {
@@ -301,6 +339,18 @@ func work(a lib.Args) {
 		for i := 0; i < a.Pick(40, 400); i++ {
 			genBystander(rng.Fork())
 		}
+		// stateful histories on the admin / status endpoints: the same bearer strings (admin, stats, both,
+		// look-alike; long-lived, expiring, not yet valid) presented again after clock moves, exact repeats
+		w := acc.Weights{Session: 1, Deny: 4, Allow: 4, ListDeny: 3, ListAllow: 3, Status: 4, Clock: 5, Repeat: 4}
+		for i := 0; i < a.Pick(40, 800); i++ {
+			r := rng.Fork()
+			e := mocks[r.Bool()]
+			now := int64(1600000000 + r.Intn(200000000))
+			c, hm := acc.GenHistory(r, e, "c09-"+strconv.Itoa(n), now, w, r.Range(4, 7), true)
+			cases = append(cases, c)
+			metas = append(metas, meta{kind: "history", steps: hm.Steps, class: "pool"})
+			n++
+		}
 	}
 
 	// mock cases sequentially (shared clock), bystander cases on the relay in parallel workers
@@ -312,10 +362,18 @@ func work(a lib.Args) {
 		c := &cases[i]
 		if c.Mode == "mock" {
 			e := mocks[c.Cfg.AE]
+			if c.Cfg.Host != e.Cfg.Host {
+				c.Rebase(e) // generated for an instance that has been replaced since
+			}
 			e.ResetStores()
 			acc.Progress(a.Out, c)
 			rn := acc.NewRunner(e, c.Name)
+			rn.StopOnHang = true
 			rn.Run(c)
+			if rn.Hung { // this instance no longer answers: later cases get a fresh one
+				res.Count("server-replaced-after-hang")
+				mocks[c.Cfg.AE] = acc.StartMockAPI(c.Cfg.AE)
+			}
 		}
 	}
 	acc.UseWallClock(true)
@@ -364,13 +422,32 @@ func work(a lib.Args) {
 			continue
 		}
 		host := c.Cfg.Host
-		oracle(c, metas[i], kept, host, res)
-		coq = append(coq, c.Coq())
+		var idx []string
+		if metas[i].kind == "history" {
+			oracleHist(c, kept, res)
+			for _, k := range metas[i].steps {
+				idx = append(idx, lib.N(uint64(k)))
+			}
+		} else {
+			oracle(c, metas[i], kept, host, res)
+			idx = []string{lib.N(uint64(executedIndex(c, metas[i].x)))}
+		}
+		coq = append(coq, lib.Tuple(c.Coq(), lib.List(idx)))
 		res.Cases = append(res.Cases, c)
 		kept++
 		res.Count("kind:" + metas[i].kind)
 		res.Count("scopes:" + metas[i].class)
 		xi := executedIndex(c, metas[i].x)
+		if metas[i].kind == "history" {
+			xi = -1
+			for _, k := range metas[i].steps {
+				if k < len(c.Outs) && c.Ops[k].Req != nil {
+					res.Count("hist-step:" + c.Ops[k].Req.Route)
+					res.Count("hist-bearer:" + c.Ops[k].Req.Auth.Label)
+					res.Count("hist-status:" + strconv.Itoa(c.Outs[k].Status))
+				}
+			}
+		}
 		if xi >= 0 {
 			x := c.Ops[xi].Req
 			res.Count("endpoint:" + x.Route)
